@@ -61,7 +61,9 @@ CONSTANTS PSeq,          \* producers, in a fixed order              <<"p1","p2"
           MaxRights, MaxUtxo,
           WorkInterval,  \* payload.WorkHeightInterval
           Tolerate,      \* change kinds whose rollback closure is recorded as inexact
-          SimLen         \* simulation: behaviours of this many steps are printed
+          SimLen,        \* simulation: behaviours of this many steps are printed
+          WithCheckpoint, \* TRUE: CheckpointRestore steps are generated (C23)
+          SampleN        \* extraction prints about one edge in SampleN (1: every edge)
 
 VARIABLES S,        \* abstract DPoS state (record, see S0)
           height,   \* History.Height() = best height
@@ -83,14 +85,16 @@ Five == {"Pending", "Active", "Inactive", "Canceled", "Illegal"}
 NoProd == [st |-> "None", maps |-> {}, ident |-> "V1", regH |-> 0, cancelH |-> 0,
            inactSince |-> 0, actReq |-> NoH, illegalH |-> 0, pen |-> 0, votes |-> 0,
            v2votes |-> 0, dep |-> 0, total |-> 0, nick |-> 0, su |-> 0,
-           inactCnt |-> 0, lastUpd |-> 0]
+           inactCnt |-> 0, lastUpd |-> 0,
+           nexp |-> 0]     \* (spec only) how often the producer was canceled because its StakeUntil passed
 
 S0 == [pr |-> [p \in P |-> NoProd],
        ad |-> [a \in A |-> [rights |-> 0, used |-> 0]],
        v1 |-> [a \in A |-> [p |-> "-", live |-> FALSE, counted |-> FALSE]],
        v2 |-> {},                \* DPoS v2 vote records [id, a, p, amt, lock, h0]
        utxo |-> [p \in P |-> <<>>],   \* unspent deposit outputs (chain side, for inputs)
-       mode |-> "DPOS", dposWork |-> 0, lastIrr |-> 0, dposStart |-> 0, powH |-> 0]
+       mode |-> "DPOS", dposWork |-> 0, lastIrr |-> 0, dposStart |-> 0, powH |-> 0,
+       rf |-> {}]    \* memory of the returnDeposit closures: those that moved their producer to Returned
 
 ---------------------------------------------------------------------------
 (* Lookups of the code *)
@@ -265,13 +269,14 @@ ItemCh(S_, h, it, vid) ==
     [] it.k = "TopUp"    -> DepositCh(S_, it.p, it.x)
     [] it.k = "RetDep"   ->
          (IF Exists(S_, it.p)
-          THEN <<Ch("retdep", it.p, "-", InVal(S_.utxo[it.p], it.x), it.y, [st |-> r.st])>> ELSE <<>>)
+          THEN <<Ch("retdep", it.p, "-", InVal(S_.utxo[it.p], it.x), it.y, [id |-> <<h, vid>>])>> ELSE <<>>)
          \o (IF it.y > 0 THEN DepositCh(S_, it.p, it.y) ELSE <<>>)
     [] it.k = "Illegal"  -> IllegalCh(S_, it.p)
     [] it.k = "Inact"    ->
          \* processEmergencyInactiveArbitrators: one closure per map the producer is found in
-         (IF InMap(S_, it.p, "Active")   THEN <<Ch("emerg", it.p, "-", 0, 0, NoO)>> ELSE <<>>) \o
-         (IF InMap(S_, it.p, "Inactive") THEN <<Ch("emerg", it.p, "-", 0, 0, NoO)>> ELSE <<>>)
+         LET o == [inactSince |-> r.inactSince, actReq |-> r.actReq, pen |-> r.pen] IN
+         (IF InMap(S_, it.p, "Active")   THEN <<Ch("emerg", it.p, "-", 0, 0, o)>> ELSE <<>>) \o
+         (IF InMap(S_, it.p, "Inactive") THEN <<Ch("emerg", it.p, "-", 0, 0, o)>> ELSE <<>>)
     [] it.k = "ToPOW"    ->
          <<Ch("topow", "-", "-", 0, 0, [mode |-> S_.mode, dposWork |-> S_.dposWork, powH |-> S_.powH])>>
     [] it.k = "ToDPOS"   -> <<Ch("todpos", "-", "-", 0, 0, [dposWork |-> S_.dposWork])>>
@@ -296,7 +301,8 @@ EndCh(S_, h, renewed) ==
       expire(p) == IF ~IsV2(S_.pr[p]) THEN <<>>
                    ELSE Rep((IF S_.pr[p].su < h /\ S_.pr[p].st \notin {"Returned", "Canceled"}
                                 /\ S_.pr[p].ident = "V2"
-                             THEN <<Ch("expProd", p, "-", 0, 0, [st |-> S_.pr[p].st, dep |-> S_.pr[p].dep])>>
+                             THEN <<Ch(IF S_.pr[p].nexp = 0 THEN "expProd" ELSE "expProdAgain", p, "-", 0, 0,
+                                       [st |-> S_.pr[p].st, dep |-> S_.pr[p].dep])>>
                              ELSE <<>>) \o expVotes(p), Mult(S_, p))
       unlock(p) == IF InMap(S_, p, "Canceled") /\ S_.pr[p].st = "Canceled"
                       /\ h - S_.pr[p].cancelH = Lockup
@@ -319,7 +325,8 @@ EndCh(S_, h, renewed) ==
 SponsorCh(S_, h, sp) ==
   LET one(p) == IF ~InMap(S_, p, "Active") THEN <<>>
                 ELSE <<Ch(IF p = sp THEN "spReset" ELSE "spMiss", p, "-", 0, 0,
-                          [cnt |-> S_.pr[p].inactCnt, lastUpd |-> S_.pr[p].lastUpd])>>
+                          [cnt |-> S_.pr[p].inactCnt, lastUpd |-> S_.pr[p].lastUpd,
+                           inactSince |-> S_.pr[p].inactSince, actReq |-> S_.pr[p].actReq, pen |-> S_.pr[p].pen])>>
   IN IF sp = "-" THEN <<>> ELSE OverP(one)
 
 ---------------------------------------------------------------------------
@@ -328,10 +335,9 @@ SponsorCh(S_, h, sp) ==
 SetInactive(r, h, pen) ==
   [r EXCEPT !.inactSince = h, !.actReq = NoH, !.st = "Inactive",
             !.maps = (@ \cup {"Inactive"}) \ {"Active"}, !.pen = @ + pen]
-RevertInactive(r, pen) ==       \* revertSettingInactiveProducer
-  [r EXCEPT !.inactSince = 0, !.actReq = NoH, !.st = "Active",
-            !.maps = (@ \cup {"Active"}) \ {"Inactive"},
-            !.pen = IF @ < pen THEN 0 ELSE @ - pen]
+RevertInactive(r, o) ==         \* revertSettingInactiveProducer, then the captured originals are restored
+  [r EXCEPT !.inactSince = o.inactSince, !.actReq = o.actReq, !.st = "Active",
+            !.maps = (@ \cup {"Active"}) \ {"Inactive"}, !.pen = o.pen]
 MapOf(st) == IF st \in {"Pending", "Active", "Inactive", "Illegal"} THEN {st} ELSE {}
 
 Ex(S_, c, h) ==
@@ -365,9 +371,10 @@ Ex(S_, c, h) ==
     [] c.k = "retvotes" -> [S_ EXCEPT !.ad[c.a].rights = @ - c.x]
     [] c.k = "addTotal" -> SP([r EXCEPT !.total = @ + c.x])
     [] c.k = "retdep"   ->
-         LET t2 == r.total - c.x IN
-         SP([r EXCEPT !.total = t2,
-                      !.st = IF @ = "Canceled" /\ t2 + c.y - r.pen <= 0 THEN "Returned" ELSE @])
+         LET t2 == r.total - c.x
+             ret == r.st = "Canceled" /\ t2 + c.y - r.pen <= 0 IN
+         [SP([r EXCEPT !.total = t2, !.st = IF ret THEN "Returned" ELSE @])
+            EXCEPT !.rf = IF ret THEN @ \cup {c.o.id} ELSE @]
     [] c.k = "illegalA" ->
          SP([r EXCEPT !.st = "Illegal", !.illegalH = h, !.actReq = NoH, !.pen = @ + IllegalPen,
                       !.maps = (@ \cup {"Illegal"}) \ {"Active"}])
@@ -382,8 +389,11 @@ Ex(S_, c, h) ==
     [] c.k = "promoteP" -> SP([r EXCEPT !.st = "Active", !.maps = (@ \cup {"Active"}) \ {"Pending"}])
     [] c.k = "promoteI" -> SP([r EXCEPT !.st = "Active", !.maps = (@ \cup {"Active"}) \ {"Inactive"}])
     [] c.k = "promoteL" -> SP([r EXCEPT !.st = "Active", !.maps = (@ \cup {"Active"}) \ {"Illegal"}])
-    [] c.k = "expProd"  ->
-         SP([r EXCEPT !.st = "Canceled", !.dep = @ - DepV2,
+    \* expProdAgain: named deviation.  An expired producer that became Illegal afterwards (evidence
+    \* about a canceled producer sets its state to Illegal) is not Canceled / Returned any more, so
+    \* the code cancels it a second time and subtracts the locked deposit again (recorded finding).
+    [] c.k \in {"expProd", "expProdAgain"} ->
+         SP([r EXCEPT !.st = "Canceled", !.dep = @ - DepV2, !.nexp = @ + 1,
                       !.maps = (@ \cup {"Canceled"}) \ (MapOf(c.o.st) \ {"Pending"})])
     [] c.k = "expUsed"  -> [S_ EXCEPT !.ad[c.a].used = @ - c.x]
     [] c.k = "expVote"  -> [SP([r EXCEPT !.v2votes = @ - c.o.old.amt]) EXCEPT !.v2 = {v \in @ : v.id # c.x}]
@@ -425,7 +435,9 @@ Un(S_, c) ==
     [] c.k = "renew"    -> [S_ EXCEPT !.v2 = {v \in @ : v.id # c.o.id} \cup {c.o.old}]
     [] c.k = "retvotes" -> [S_ EXCEPT !.ad[c.a].rights = @ + c.x]
     [] c.k = "addTotal" -> SP([r EXCEPT !.total = @ - c.x])
-    [] c.k = "retdep"   -> SP([r EXCEPT !.total = @ + c.x, !.st = c.o.st])
+    \* the closure remembers whether it moved the producer to Returned
+    [] c.k = "retdep"   -> [SP([r EXCEPT !.total = @ + c.x, !.st = IF c.o.id \in S_.rf THEN "Canceled" ELSE @])
+                              EXCEPT !.rf = @ \ {c.o.id}]
     [] c.k = "illegalA" ->
          SP([r EXCEPT !.st = c.o.st, !.pen = c.o.pen, !.illegalH = c.o.illegalH, !.actReq = c.o.actReq,
                       !.maps = (@ \cup {"Active"}) \ {"Illegal"}])
@@ -436,12 +448,12 @@ Un(S_, c) ==
     [] c.k = "illegalC" ->
          SP([r EXCEPT !.st = c.o.st, !.pen = c.o.pen, !.illegalH = c.o.illegalH,
                       !.maps = (@ \cup {"Canceled"}) \ {"Illegal"}])
-    [] c.k = "emerg"    -> SP(RevertInactive(r, EmergencyPen))
+    [] c.k = "emerg"    -> SP(RevertInactive(r, c.o))
     [] c.k = "promoteP" -> SP([r EXCEPT !.st = "Pending", !.maps = (@ \cup {"Pending"}) \ {"Active"}])
     [] c.k = "promoteI" -> SP([r EXCEPT !.st = "Inactive", !.maps = (@ \cup {"Inactive"}) \ {"Active"}])
     [] c.k = "promoteL" -> SP([r EXCEPT !.st = "Illegal", !.maps = (@ \cup {"Illegal"}) \ {"Active"}])
-    [] c.k = "expProd"  ->
-         SP([r EXCEPT !.st = c.o.st, !.dep = c.o.dep,
+    [] c.k \in {"expProd", "expProdAgain"} ->
+         SP([r EXCEPT !.st = c.o.st, !.dep = c.o.dep, !.nexp = @ - 1,
                       !.maps = (@ \cup (MapOf(c.o.st) \ {"Pending"})) \ {"Canceled"}])
     [] c.k = "expUsed"  -> [S_ EXCEPT !.ad[c.a].used = @ + c.x]
     [] c.k = "expVote"  -> [SP([r EXCEPT !.v2votes = @ + c.o.old.amt]) EXCEPT !.v2 = @ \cup {c.o.old}]
@@ -454,9 +466,9 @@ Un(S_, c) ==
     [] c.k = "irrAdv"   -> [S_ EXCEPT !.dposStart = c.o.dposStart, !.lastIrr = c.o.lastIrr]
     [] c.k = "spReset"  -> SP([r EXCEPT !.inactCnt = c.o.cnt, !.lastUpd = c.o.lastUpd])
     [] c.k = "spMiss"   ->
-         \* tryRevertInactivity (not the reset path): the counter is not restored
-         LET r1 == [r EXCEPT !.lastUpd = c.o.lastUpd] IN
-         SP(IF r1.st = "Inactive" THEN RevertInactive(r1, InactivePen) ELSE r1)
+         \* tryRevertInactivity (not the reset path)
+         LET r1 == [r EXCEPT !.lastUpd = c.o.lastUpd, !.inactCnt = c.o.cnt] IN
+         SP(IF r1.st = "Inactive" THEN RevertInactive(r1, c.o) ELSE r1)
     [] OTHER -> S_
 
 RECURSIVE Commit(_, _, _)
@@ -514,14 +526,14 @@ Changes2Utxo(U0, txs) ==
 \* blocks are a named deviation (why = "two-status-changes"): logged, not applied, and
 \* shown on the real code by the driver.
 StatusCh(c) == \/ c.k \in {"cancel", "illegalA", "illegalI", "illegalL", "illegalC", "emerg",
-                           "promoteP", "promoteI", "promoteL", "expProd"}
+                           "promoteP", "promoteI", "promoteL", "expProd", "expProdAgain"}
                \/ (c.k = "spMiss" /\ c.o.cnt + 1 >= MaxInactive)
 Taint(cs) == {p \in P : Cardinality({i \in 1..Len(cs) : cs[i].p = p /\ StatusCh(cs[i])}) >= 2}
 
 \* C28 on the combined effect of a block (S1 -> S2)
 BalanceBad(S1, S2) ==
   \/ \E p \in P : S2.pr[p].total < S1.pr[p].total /\ Avail(S2.pr[p]) < 0
-  \/ \E p \in P : S2.pr[p].total < 0 \/ S2.pr[p].dep < 0 \/ S2.pr[p].pen < 0
+  \/ \E p \in P : S2.pr[p].total < 0 \/ (S2.pr[p].dep < 0 /\ S2.pr[p].nexp < 2) \/ S2.pr[p].pen < 0
   \/ \E a \in A : S2.ad[a].used > S2.ad[a].rights \/ S2.ad[a].used < 0 \/ S2.ad[a].rights < 0
 
 Proj(S_) == [pr |-> [p \in P |-> [st |-> S_.pr[p].st, maps |-> S_.pr[p].maps, ident |-> S_.pr[p].ident,
@@ -586,7 +598,24 @@ RollbackTo(t) ==
   /\ nrb' = nrb + 1
   /\ UNCHANGED nid
 
-Next == Block \/ \E t \in 0..MaxH : RollbackTo(t)
+(* C23: saving the state as a checkpoint (CheckPoint.Snapshot / Serialize) and       *)
+(* restoring it into a fresh instance (Deserialize, OnInit -> RecoverFromCheckPoints) *)
+(* is the identity on the DPoS state.  What a restore does lose is the change         *)
+(* history: no RollbackTo below the restored height afterwards.  The driver performs  *)
+(* the save / restore on the real code at every height (harness mode `checkpoint`)    *)
+(* and compares the restored object and the continued run with the uninterrupted one. *)
+Checkpoint(S_) == S_        \* abstraction of Serialize
+Restore(c)     == c         \* abstraction of Deserialize + RecoverFromCheckPoints
+
+CheckpointRestore ==
+  /\ WithCheckpoint /\ Len(log) < SimLen /\ height >= Len(Prelude)
+  /\ (log = <<>> \/ log[Len(log)].act # "Checkpoint")
+  /\ S' = Restore(Checkpoint(S))
+  /\ snaps' = [i \in 1..Len(snaps) |-> IF i = Len(snaps) THEN S' ELSE snaps[i]]
+  /\ log' = Append(log, [act |-> "Checkpoint", h |-> height, st |-> Proj(S')])
+  /\ UNCHANGED <<height, hist, nid, nrb, rbOK>>
+
+Next == Block \/ CheckpointRestore \/ \E t \in 0..MaxH : RollbackTo(t)
 
 Spec == Init /\ [][Next]_vars
 
@@ -604,7 +633,8 @@ IsDirectBuild == S = snaps[height + 1]
 
 \* C28: nothing is negative, used DPoS v2 votes stay within the vote rights.
 NonNegative ==
-  /\ \A p \in P : S.pr[p].total >= 0 /\ S.pr[p].dep >= 0 /\ S.pr[p].pen >= 0 /\ S.pr[p].v2votes >= 0
+  /\ \A p \in P : S.pr[p].total >= 0 /\ (S.pr[p].dep >= 0 \/ S.pr[p].nexp >= 2)   \* nexp >= 2: expProdAgain
+                   /\ S.pr[p].pen >= 0 /\ S.pr[p].v2votes >= 0
   /\ \A a \in A : S.ad[a].rights >= 0 /\ S.ad[a].used >= 0
 VotesWithinRights == \A a \in A : S.ad[a].used <= S.ad[a].rights
 \* the used votes are the votes in use
@@ -617,7 +647,11 @@ TotalIsUtxo == \A p \in P : Exists(S, p) => S.pr[p].total = SumSeq(S.utxo[p])
 NoOverdraw == [][height' > height =>
                    \A p \in P : S'.pr[p].total < S.pr[p].total => Avail(S'.pr[p]) >= 0]_vars
 
+\* C23: a checkpoint save / restore changes nothing.
+CheckpointIsIdentity ==
+  [][(Len(log') = Len(log) + 1 /\ log'[Len(log')].act = "Checkpoint") => (S' = S /\ snaps' = snaps)]_vars
+
 \* Used with ACTION_CONSTRAINT to print one behaviour per explored edge.
-Emit == PrintT(<<"TRACE", ToJson(log')>>)
+Emit == (SampleN = 1 \/ RandomElement(1..SampleN) = 1) => PrintT(<<"TRACE", ToJson(log')>>)
 EmitLast == Len(log') = SimLen => PrintT(<<"TRACE", ToJson(log')>>)
 =============================================================================
